@@ -74,7 +74,8 @@ def elements(level=1):
         lambda: Element(exclusiveMaximum=1), lambda: Element(multipleOf=2), lambda: Element(multipleOf=0.5),
         lambda: Element(minLength=1), lambda: Element(maxLength=1), lambda: Element(pattern="^a"),
         lambda: Element(const=True), lambda: Element(const=1), lambda: Element(const=[True]), lambda: Element(const={"a": 1.0}),
-        lambda: Element(enum=[1, "a", None]), lambda: Element(enum=[[True], {"a": False}]),
+        lambda: Element(enum=[1, "a", None]), lambda: Element(enum=[[True], {"a": False}]), lambda: Element(enum=[3, 1, 2]), lambda: String(enum=["b", "a", "c"]),
+        lambda: Element(required=["b", "a"]), lambda: Element(dependencies={"k": ["z", "a"]}),
         lambda: Element(minItems=1), lambda: Element(maxItems=1), lambda: Element(uniqueItems=True),
         lambda: Element(minProperties=1), lambda: Element(maxProperties=1), lambda: Element(required=["a"]),
         lambda: Element(default=0), lambda: String(default="a"), lambda: Integer(default="bad"),
